@@ -606,6 +606,11 @@ func (api *DatabaseAPI) handleInsert(opID []byte, key string, data []byte) {
 	}
 
 	acc := r.GetAccessor(r)
+	if acc == nil {
+		// Records that are not held as (non-empty) JSON have no accessor.
+		api.send(opID, dbMsgTypeError, "record does not support inserting values", nil)
+		return
+	}
 
 	result := gjson.ParseBytes(data)
 	anythingPresent := false
